@@ -184,6 +184,26 @@ func ruleUpgradeOrder(r *Report) {
 				r.BadPath(rule, "remapIndex/close-before-rename", rn.Pos(), "the temp copy can be renamed into place without having been closed", path)
 			}
 		}
+		// completion markers are removed only after the completion header is on disk
+		for _, rm := range callSites(fn, "os.Remove") {
+			if _, isMarker := concatWith(rm.Common().Args[0], ".remapped"); !isMarker {
+				continue
+			}
+			okAny := false
+			var path []*ssa.BasicBlock
+			for _, wh := range whs {
+				if ok, p := successGuard(fn, rm, asCall(wh)); ok {
+					okAny = true
+				} else {
+					path = p
+				}
+			}
+			if okAny {
+				r.Ok(rule, "remapIndex/markers-removed-after-completion-header", rm.Pos(), "the per-file .remapped markers are removed only after the header recording completion was written successfully")
+			} else {
+				r.BadPath(rule, "remapIndex/markers-removed-after-completion-header", rm.Pos(), "the .remapped markers can be removed before the completion header is written: if that write fails or the process dies in between, the next open remaps the already remapped files a second time — nearly every entry is mis-pointed or dropped", path)
+			}
+		}
 		// entries whose primary data no longer exists are dropped, not mis-pointed
 		for _, c := range callSites(fn, "(*mhprimary.IndexRemapper).RemapOffset") {
 			rc := asCall(c)
@@ -312,6 +332,7 @@ func ruleRolloverSiblings(r *Report) {
 			r.Bad(rule, shortFunc(fn)+"/test", fn.Pos(), "no 'start a new chunk when the running size reaches the limit' test found")
 		}
 	}
+	ruleChunkAccounting(r)
 	if len(sibs) == 0 {
 		return
 	}
@@ -340,4 +361,76 @@ func init() {
 		ruleDeletedCheck(r)
 	},
 		"Decides the ordering/shape clauses of the legacy upgrade, not equality of contents or resumability at every crash point: upgradePrimary applies the pending freelist (offsets in the old linear address space) before chunking (excused only when there is no freelist), chunks only if that succeeded, writes the header (which marks completion) only after successful chunking and removes the legacy file only after the header; upgradeIndex converts only version 2, header after chunking, removal after header; remapIndex rewrites offsets only in .tmp copies, closes before renaming temp over original, records completion only after the per-file loop (or when nothing needs remapping) and always queues entries whose offset cannot be remapped for deletion; the five start-a-new-file tests (flushBucket, flushBlock, primary Put, both chunkers) use the same >= relation; chunkOldPrimary and applyFreeList honour the deleted bit. Not covered: RemapOffset arithmetic, equality of contents, the marker-then-rename window (observation O-4).")
+}
+
+// ruleChunkAccounting: a chunker's running size advances by exactly the bytes
+// it wrote, on every path.
+func ruleChunkAccounting(r *Report) {
+	const rule = "chunk-accounting"
+	for _, c := range []struct{ alias, fn string }{{"I", "chunkOldIndex"}, {"M", "chunkOldPrimary"}} {
+		fn := r.need(rule, c.alias, c.fn)
+		if fn == nil {
+			continue
+		}
+		limit := fn.Params[len(fn.Params)-1]
+		sws := findSizeWords(fn)
+		if len(sws) == 0 {
+			r.Undecided(rule, shortFunc(fn)+": size word not found")
+			continue
+		}
+		sw := sws[0]
+		env := linEnv{Canon: func(v ssa.Value) (string, bool) {
+			if isSizeOfRecord(v, sw, map[ssa.Value]bool{}) {
+				if _, isConst := v.(*ssa.Const); !isConst {
+					return "SZ", true
+				}
+			}
+			return "", false
+		}}
+		// bytes written per record
+		written := linConst(0)
+		for _, w := range callSites(fn, "(*bufio.Writer).Write") {
+			written = written.add(lenOf(env, w.Common().Args[1]), 1)
+		}
+		for _, w := range callSites(fn, "io.CopyN") {
+			written = written.add(env.lin(w.Common().Args[2]), 1)
+		}
+		found := false
+		for _, b := range fn.Blocks {
+			ifi, ok := lastInstr(b).(*ssa.If)
+			if !ok {
+				continue
+			}
+			cond, _ := stripNot(ifi.Cond)
+			bo, ok := cond.(*ssa.BinOp)
+			if !ok {
+				continue
+			}
+			var running ssa.Value
+			if stripIntConv(bo.Y) == ssa.Value(limit) {
+				running = stripIntConv(bo.X)
+			} else if stripIntConv(bo.X) == ssa.Value(limit) {
+				running = stripIntConv(bo.Y)
+			} else {
+				continue
+			}
+			found = true
+			add, isAdd := running.(*ssa.BinOp)
+			if !isAdd || add.Op != token.ADD {
+				r.Bad(rule, shortFunc(fn)+"/running-size", instrPos(ifi), "the running chunk size tested against the limit is not (previous size + bytes written) on every path (it is merged from paths that advance it differently): some records are written without being counted, the chunk grows past the limit and records land at local offsets >= the limit, which decode to the wrong file")
+				continue
+			}
+			_, xPhi := stripIntConv(add.X).(*ssa.Phi)
+			inc := env.lin(add.Y)
+			if xPhi && inc.equal(written) {
+				r.Ok(rule, shortFunc(fn)+"/running-size", instrPos(ifi), "the running size advances by exactly the bytes written per record ["+written.String()+"]")
+			} else {
+				r.Bad(rule, shortFunc(fn)+"/running-size", instrPos(ifi), fmt.Sprintf("the running chunk size advances by [%s] but [%s] bytes are written per record", inc, written))
+			}
+		}
+		if !found {
+			r.Bad(rule, shortFunc(fn)+"/running-size", fn.Pos(), "no comparison of a running size with the limit parameter found")
+		}
+	}
+	r.Min(rule, 2)
 }
